@@ -83,7 +83,7 @@ Proof. exact step_example. Qed.
         convex combination reshaped to the device shape) IS step_model, for EVERY behaviour of the two inner optimiser calls.  Any carrier. ---- *)
 From DK.Model Require Import SolveOps.
 From DK.Gen Require Import Solve.
-From DK.Proofs Require Import GenSolve.
+From DK.Proofs Require Import GenStep.
 Theorem C19_source_step : forall (A : Type) (NA : Num A) (uproject : projcall A -> optresult A) (linesearch : (A -> A) -> optresult A) dv s t,
   step_gen uproject (fun _ => linesearch) dv s t = step_model uproject linesearch dv s t.
 Proof. intros A NA. exact (@gen_step A NA). Qed.
